@@ -10,3 +10,19 @@ _pending = 'contracts for this property are not built yet in this round (work in
 NOT_APPLICABLE = {p: _pending for p in ['C01','C02','C03','C04','C05','C07','C08','C09','C10','C11','C12','C13','C14','C16','C17','C18','C19','C20']}
 NOT_APPLICABLE['C06'] = 'relational equivalence between the pure-Python pipeline and libyaml + Cython glue: no C or Cython verifier is installed, so one side of every obligation would be an assumption (DESIGN.md section 7)'
 NOTES = 'All checks: ./check <ID> --tier quick|thorough; exit 0 held, 1 violation (VIOLATION line), 3 engine error (never a VIOLATION). Evidence in evidence/<ID>.json.'
+
+_T = 'contract-based deductive verification: VCs generated from the real ASTs by pyvc, discharged by z3/cvc5; effect/frame contracts checked modularly on the AST; bounded stand-ins labelled'
+CLAIMS.update({
+    'C01': {'text': 'The safe loaders\' constructor tables are proved closed (YAML 1.1 core tags only, default = reject) by running the module bodies under the proved copy-on-write contract of add_constructor; every function reachable from those tables satisfies an effect contract (no import, no reflection, no computed callee).',
+            'note': 'Result-type and raises-only contracts of the individual converters are not discharged yet; the Cython CParser is trusted (text scan only).', 'technique': _T, 'design_ref': 'DESIGN.md 5/C01'},
+    'C04': {'text': 'The full loaders\' tables are proved to hold only value constructors plus python/name; the instantiating prefixes are absent; __import__ is guarded by unsafe and no reachable call passes unsafe; reachable functions satisfy the effect contract.',
+            'note': 'getattr on an imported module is assumed to return an existing attribute (A-getattr).', 'technique': _T, 'design_ref': 'DESIGN.md 5/C04'},
+    'C10': {'text': 'The copy-on-write contract of add_constructor/add_multi_constructor/add_representer/add_multi_representer is discharged over an arbitrary class lattice and arbitrary prior history (view of EVERY class, frame on every pre-existing dict); module-init tables and API helper targets are decided on the AST.',
+            'note': 'add_implicit_resolver/add_path_resolver: bounded stand-in only (all histories <= 3 ops on a 4-class lattice, labelled bounded). Lattices with registry diamonds are excluded by the precondition.', 'technique': _T, 'design_ref': 'DESIGN.md 5/C10'},
+    'C11': {'text': 'Frame contracts: no function writes a class-level or module-level container, aliased fields are rebound before being written, API calls build one fresh object; per-document reset postconditions.',
+            'note': 'Reset postconditions are being added function by function; id()-dependent behaviour and the C back-end are outside.', 'technique': _T, 'design_ref': 'DESIGN.md 5/C11'},
+    'C19': {'text': 'Exception transparency as an effect contract over every try statement of the library: no handler can catch an exception of the caller\'s stream or callbacks, no stream I/O happens inside a guarded block, API functions only dispose in finally; plus the frame of C11.',
+            'note': 'The C emitter/parser (except-0 handlers in Cython) are invisible to the effect checker.', 'technique': _T, 'design_ref': 'DESIGN.md 5/C19'},
+})
+for _p in CLAIMS:
+    NOT_APPLICABLE.pop(_p, None)
